@@ -21,11 +21,13 @@ def guarded_check(solver, seconds):
     """solver.check() with a hard deadline: some z3 tactics ignore the 'timeout' parameter, so a
     timer thread interrupts the context. An interrupted check answers unknown."""
     done = []
+    zctx = solver.ctx     # capture the context only: the timer thread must never own the last reference to a
+                          # Solver (its __del__ would call into z3 from a second thread -> heap corruption)
 
     def fire():
         if not done:
             try:
-                solver.ctx.interrupt()
+                zctx.interrupt()
             except Exception:
                 pass
     t = threading.Timer(seconds, fire)
@@ -401,6 +403,7 @@ def _div(a, b):
         c = r * b == 1
         if ctx is not None:
             ctx.add_side(c)
+            ctx.recip_defs[str(r)] = (r, b, c)
             ctx.obligations.append(("nonzero_divisor", b))
     ca = _const_value(a)
     if ca is not None and ca == 1:
@@ -502,6 +505,7 @@ class Ctx:
         self.pc = []
         self.side = []
         self.recips = {}
+        self.recip_defs = {}
         self.obligations = []
         self.effects = []           # free-form log used by harnesses
         self.notes = {}
@@ -661,6 +665,91 @@ class Path:
         STATS["solver_s"] += time.time() - t0
         return str(r), m, True
 
+    def check_isolated(self, claim, axioms=(), timeout_ms=30000, prefer=()):
+        """decide  PC /\\ (definitions of the named reciprocals occurring in the claim, transitively) /\\ axioms /\\ not claim
+        in a FRESH solver.  All other side constraints (LAPACK hypotheses, permutation contracts ...) are left out:
+        unsat from a subset of the constraints is unsat for all of them (sound); a sat answer may be spurious and is,
+        like every counterexample, only reported after it reproduces on the real build."""
+        c = lift(claim)
+        neg = z3.simplify(z3.Not(c))
+        if z3.is_false(neg):
+            return "unsat", None, False
+        STATS["vc_queries"] += 1
+        t0 = time.time()
+        s = z3.Solver()
+        s.set("timeout", timeout_ms)
+        for p_ in self.pc:
+            s.add(p_)
+        for a in axioms:
+            s.add(a)
+        s.add(neg)
+        seen = set()
+        todo = [neg] + list(axioms)
+        defs = self.ctx.recip_defs
+        while todo:
+            e = todo.pop()
+            for nm in _const_names(e):
+                if nm in defs and nm not in seen:
+                    seen.add(nm)
+                    s.add(defs[nm][2])
+                    todo.append(defs[nm][1])
+        r = guarded_check(s, timeout_ms / 1000.0 + 5)
+        m = s.model() if r == z3.sat else None
+        if r == z3.sat and prefer:
+            for p_ in prefer:
+                s.add(p_)
+            if guarded_check(s, 20) == z3.sat:
+                m = s.model()
+        STATS["solver_s"] += time.time() - t0
+        return str(r), m, True
+
+    def check_guided(self, claim, free, prefer=(), timeout_ms=20000):
+        """counterexample search for a claim the solver could not decide: fix every constant except those in `free`
+        (names) to the values of one well-conditioned model of the path condition and decide the remaining, much
+        smaller, query.  Only a sat answer is meaningful (-> candidate, replayed); anything else leaves the VC unknown."""
+        c = lift(claim)
+        neg = z3.Not(c)
+        s0 = z3.Solver()
+        s0.set("timeout", timeout_ms)
+        for p_ in self.pc:
+            s0.add(p_)
+        for p_ in prefer:
+            s0.add(p_)
+        if guarded_check(s0, timeout_ms / 1000.0 + 5) != z3.sat:
+            return "unknown", None
+        m0 = s0.model()
+        defs = self.ctx.recip_defs
+        names = set()
+        todo = [neg]
+        cons = []
+        seen = set()
+        while todo:
+            e = todo.pop()
+            for nm in _const_names(e):
+                if nm in seen:
+                    continue
+                seen.add(nm)
+                if nm in defs:
+                    cons.append(defs[nm][2])
+                    todo.append(defs[nm][1])
+                else:
+                    names.add(nm)
+        s = z3.Solver()
+        s.set("timeout", timeout_ms)
+        for p_ in self.pc:
+            s.add(p_)
+        for nm in names:
+            if nm in free:
+                continue
+            for d in m0.decls():
+                if d.name() == nm and d.arity() == 0:
+                    s.add(d() == m0[d])
+        for cst in cons:
+            s.add(cst)
+        s.add(neg)
+        r = guarded_check(s, timeout_ms / 1000.0 + 5)
+        return str(r), (s.model() if r == z3.sat else None)
+
     def smt2(self, claim, axioms=()):
         s = z3.Solver()
         for c in self.ctx.side + self.pc + list(axioms):
@@ -734,6 +823,24 @@ class Explorer:
 # --------------------------------------------------------------------------------------
 # models -> python values
 # --------------------------------------------------------------------------------------
+
+def _const_names(e):
+    """names of the uninterpreted constants occurring in a z3 term"""
+    out = set()
+    seen = set()
+    stack = [e]
+    while stack:
+        x = stack.pop()
+        i = x.get_id()
+        if i in seen:
+            continue
+        seen.add(i)
+        if z3.is_const(x) and x.decl().kind() == z3.Z3_OP_UNINTERPRETED:
+            out.add(x.decl().name())
+        else:
+            stack.extend(x.children())
+    return out
+
 
 def model_value(model, x):
     """Fraction / bool value of a term in a model"""
